@@ -131,6 +131,14 @@ func checkScreen(rawRows []string, rawSt *Status, cfg screenCfg) (string, bool) 
 	for i, r := range rows {
 		t := strings.TrimRight(r, " ")
 		want := strings.TrimRight(cfg.prompt+st.Query, " ")
+		if len(cfg.prompt+st.Query) >= cfg.width-4 && strings.HasPrefix(r, cfg.prompt) && t != want {
+			// a query wider than the window is scrolled: the row shows the prompt and a piece of the query
+			if piece := strings.TrimSpace(r[len(cfg.prompt):]); piece != "" && strings.Contains(st.Query, piece) {
+				role[i] = "prompt"
+				promptRows++
+				continue
+			}
+		}
 		if cfg.info == "inline" {
 			if strings.HasPrefix(r, cfg.prompt+st.Query) && infoRe.MatchString(r[len(cfg.prompt+st.Query):]) {
 				role[i] = "prompt"
@@ -141,6 +149,13 @@ func checkScreen(rawRows []string, rawSt *Status, cfg screenCfg) (string, bool) 
 				}
 				if msg := checkInfo(m, st, cfg); msg != "" {
 					return msg + fmt.Sprintf(" (row %q)", r), false
+				}
+			} else if strings.HasPrefix(r, cfg.prompt+st.Query) {
+				// no room for the counter after the query: the row shows the query and at most a cut separator
+				full := fmt.Sprintf("  < %d/%d (%d)", st.MatchCount, st.TotalCount, len(st.Selected))
+				if rest := strings.TrimSpace(r[len(cfg.prompt+st.Query):]); len(cfg.prompt+st.Query)+len(full) >= cfg.width-1 && (rest == "" || rest == "<" || strings.HasPrefix(rest, "< ")) {
+					role[i] = "prompt"
+					promptRows++
 				}
 			}
 		} else if cfg.info == "inline-right" {
@@ -153,6 +168,10 @@ func checkScreen(rawRows []string, rawSt *Status, cfg screenCfg) (string, bool) 
 					if msg := checkInfo(m, st, cfg); msg != "" {
 						return msg + fmt.Sprintf(" (row %q)", r), false
 					}
+				} else if need := len(cfg.prompt+st.Query) + 2 + len(fmt.Sprintf("%d/%d (%d)", st.MatchCount, st.TotalCount, len(st.Selected))); need >= cfg.width-2 {
+					// no room for the whole counter: whatever is left of it is cut
+					role[i] = "prompt"
+					promptRows++
 				} else if rest == "" && t == want {
 					// the counter is on the right edge of the prompt row whenever there is room for it
 					need := len(cfg.prompt+st.Query) + 2 + len(fmt.Sprintf("%d/%d (%d)", st.MatchCount, st.TotalCount, len(st.Selected)))
@@ -561,7 +580,7 @@ func c15Session(t *rapid.T) {
 			body = strings.Join(parts, "+")
 			partial = true
 		default:
-			body = rapid.SampledFrom([]string{"put(a)", "put(b)", "put(1)", "put(-)", "backward-delete-char", "clear-query", "change-query(item-0)", "change-query(a1 b2)", "change-query(zzz)", "change-query(med 7)"}).Draw(t, "q")
+			body = rapid.SampledFrom([]string{"put(a)", "put(b)", "put(1)", "put(-)", "backward-delete-char", "clear-query", "change-query(item-0)", "change-query(a1 b2)", "change-query(zzz)", "change-query(med 7)", "change-query(item a1 b2 zz yy xx ww vv)", "change-query(the quick brown fox jump)", "put( more words here)"}).Draw(t, "q")
 		}
 		history = append(history, "POST "+body)
 		if code, err := s.Post(body); err != nil || code != 200 {
